@@ -163,18 +163,27 @@ Fixpoint aupd {A} (x : string) (v : A) (l : list (string * A)) : list (string * 
 (* ------------------------------------------------------------------ *)
 (* arrays as lists, Z indices                                           *)
 
-Definition zget {A} (l : list A) (i : Z) : option A :=
-  if i <? 0 then None else nth_error l (Z.to_nat i).
-
-Fixpoint set_nth {A} (n : nat) (l : list A) (v : A) {struct l} : option (list A) :=
-  match l, n with
-  | [], _ => None
-  | _ :: r, O => Some (v :: r)
-  | x :: r, S n' => match set_nth n' r v with Some r' => Some (x :: r') | None => None end
+(* recursion on the list with a Z index: reduces by cbn on a concrete index
+   (no Z.to_nat), blocks on a symbolic one (then use zget_ok / zset_ok) *)
+Fixpoint zget {A} (l : list A) (i : Z) {struct l} : option A :=
+  match l with
+  | [] => None
+  | x :: r => if i =? 0 then Some x else zget r (i - 1)
   end.
 
-Definition zset {A} (l : list A) (i : Z) (v : A) : option (list A) :=
-  if i <? 0 then None else set_nth (Z.to_nat i) l v.
+Fixpoint zset {A} (l : list A) (i : Z) (v : A) {struct l} : option (list A) :=
+  match l with
+  | [] => None
+  | x :: r => if i =? 0 then Some (v :: r)
+              else match zset r (i - 1) v with Some r' => Some (x :: r') | None => None end
+  end.
+
+(* length and repeat with Z arguments (reduce by cbn on concrete data) *)
+Fixpoint zlen {A} (l : list A) : Z :=
+  match l with [] => 0 | _ :: r => 1 + zlen r end.
+
+Definition zrepeat {A} (x : A) (n : Z) : list A :=
+  match n with Zpos p => Pos.iter (cons x) [] p | _ => [] end.
 
 (* ------------------------------------------------------------------ *)
 (* values                                                               *)
@@ -378,11 +387,11 @@ Fixpoint eval_args (st : state) (l : list arg) : result (list argval) :=
               | AF e => do x <- eval_f st e; Ok (AVF x)
               | AArrI n off =>
                   do k <- eval_i st off; do arr <- get_ai st n;
-                  if (k <? 0) || (Z.of_nat (List.length arr) <? k) then Err (OOB n k)
+                  if (k <? 0) || (zlen arr <? k) then Err (OOB n k)
                   else Ok (AVArrI (skipn (Z.to_nat k) arr))
               | AArrF n off =>
                   do k <- eval_i st off; do arr <- get_af st n;
-                  if (k <? 0) || (Z.of_nat (List.length arr) <? k) then Err (OOB n k)
+                  if (k <? 0) || (zlen arr <? k) then Err (OOB n k)
                   else Ok (AVArrF (skipn (Z.to_nat k) arr))
               end;
       do vs <- eval_args st r; Ok (v :: vs)
@@ -480,7 +489,7 @@ Definition cmp_call {A} (callf : callee) (cmpf : string) (mk : list A -> argval)
 
 Definition qsort_list {A} (callf : callee) (cmpf : string) (mk : list A -> argval)
            (name : string) (n k : Z) (l : list A) : result (list A) :=
-  if (n <? 0) || (k <? 1) || (Z.of_nat (List.length l) <? n * k) then Err (OOB name (n * k))
+  if (n <? 0) || (k <? 1) || (zlen l <? n * k) then Err (OOB name (n * k))
   else
     let items := chunks (Z.to_nat k) (Z.to_nat n) l in
     do sorted <- msortM (cmp_call callf cmpf mk) (S (Z.to_nat n)) items;
@@ -497,8 +506,17 @@ Definition cond_of (c : iexp) (st : state) : result bool :=
 
 Definition new_arr {A} (name : string) (n : Z) (zero : A) (init : list A) : result (list A) :=
   if n <? 0 then Err (NegSize name)
-  else if n <? Z.of_nat (List.length init) then Err (OOB name n)
-  else Ok (init ++ repeat zero (Z.to_nat n - List.length init)).
+  else if n <? zlen init then Err (OOB name n)
+  else Ok (init ++ zrepeat zero (n - zlen init)).
+
+(* body of a for loop: the step runs after a normal end of the body and after `continue` *)
+Definition for_body (ebody estep : state -> result (outcome * state)) (st : state)
+  : result (outcome * state) :=
+  match ebody st with
+  | Ok (ONormal, st2) => estep st2
+  | Ok (OContinue, st2) => estep st2
+  | r => r
+  end.
 
 Fixpoint exec (fuel : nat) (s : stmt) (st : state) {struct s} : result (outcome * state) :=
   match s with
@@ -524,12 +542,7 @@ Fixpoint exec (fuel : nat) (s : stmt) (st : state) {struct s} : result (outcome 
       do v <- eval_i st c; if truth v then exec fuel a st else exec fuel b st
   | SWhile c b => loop fuel (cond_of c) (exec fuel b) st
   | SFor c step b =>
-      loop fuel (cond_of c)
-           (fun st1 => match exec fuel b st1 with
-                       | Ok (ONormal, st2) => exec fuel step st2
-                       | Ok (OContinue, st2) => exec fuel step st2
-                       | r => r
-                       end) st
+      loop fuel (cond_of c) (for_body (exec fuel b) (exec fuel step)) st
   | SBreak => Ok (OBreak, st)
   | SContinue => Ok (OContinue, st)
   | SRetI e => do v <- eval_i st e; Ok (ORet (RI v), st)
@@ -600,6 +613,12 @@ Fixpoint exec_fun (p : program) (fuel : nat) (f : string) (args : list argval)
 
 End Sem.
 
+(* symbolic execution by cbn: a statement is executed only when applied to a
+   state, so that the bodies of loops stay folded as [exec ... body] *)
+Arguments exec {T} N X callf fuel !s st /.
+Arguments for_body {T} ebody estep st /.
+Arguments cond_of {T} N X c st /.
+
 Arguments argval : clear implicits.
 Arguments arrval : clear implicits.
 Arguments retval : clear implicits.
@@ -634,69 +653,145 @@ Definition XRN : NumLit (option R) :=
 (* Lemmas for symbolic execution                                        *)
 (* ================================================================== *)
 
+(* keep integer arithmetic on symbolic values folded under cbn / simpl *)
+#[global] Arguments Z.add : simpl nomatch.
+#[global] Arguments Z.sub : simpl nomatch.
+#[global] Arguments Z.mul : simpl nomatch.
+#[global] Arguments Z.opp : simpl nomatch.
+#[global] Arguments Z.quot : simpl nomatch.
+#[global] Arguments Z.rem : simpl nomatch.
+#[global] Arguments Z.ltb : simpl nomatch.
+#[global] Arguments Z.leb : simpl nomatch.
+#[global] Arguments Z.eqb : simpl nomatch.
+#[global] Arguments Z.compare : simpl nomatch.
+#[global] Arguments Z.lnot : simpl nomatch.
+#[global] Arguments Z.lor : simpl nomatch.
+#[global] Arguments Z.land : simpl nomatch.
+#[global] Arguments Z.to_nat : simpl nomatch.
+#[global] Arguments Z.of_nat : simpl never.
+
 Lemma bind_ok {A B} (r : result A) (f : A -> result B) a : r = Ok a -> bind r f = f a.
 Proof. intros ->; reflexivity. Qed.
 
 (* ---- arrays ---- *)
 
+Lemma zlen_eq {A} (l : list A) : zlen l = Z.of_nat (List.length l).
+Proof. induction l as [|x r IH]; [reflexivity|]. cbn [zlen List.length]. rewrite IH. lia. Qed.
+
+Lemma zrepeat_eq {A} (x : A) (n : Z) : zrepeat x n = repeat x (Z.to_nat n).
+Proof.
+  destruct n as [|p|p]; try reflexivity. unfold zrepeat.
+  rewrite Pos2Nat.inj_iter. change (Z.to_nat (Z.pos p)) with (Pos.to_nat p).
+  induction (Pos.to_nat p) as [|k IH]; [reflexivity|]. simpl. rewrite IH. reflexivity.
+Qed.
+
 Lemma zget_ok {A} (l : list A) (i : Z) (d : A) :
   0 <= i < Z.of_nat (List.length l) -> zget l i = Some (nth (Z.to_nat i) l d).
 Proof.
-  intros H. unfold zget. destruct (Z.ltb_spec i 0); [lia|].
-  apply nth_error_nth'. lia.
+  revert i; induction l as [|x r IH]; intros i H; simpl in H; [lia|].
+  simpl. destruct (Z.eqb_spec i 0) as [->|Hne]; [reflexivity|].
+  rewrite IH by lia. replace (Z.to_nat i) with (S (Z.to_nat (i - 1))) by lia. reflexivity.
 Qed.
 
 Lemma zget_none {A} (l : list A) (i : Z) :
   i < 0 \/ Z.of_nat (List.length l) <= i -> zget l i = None.
 Proof.
-  intros H. unfold zget. destruct (Z.ltb_spec i 0); [reflexivity|].
-  apply nth_error_None. lia.
-Qed.
-
-Lemma set_nth_ok {A} (l : list A) (n : nat) (v : A) :
-  (n < List.length l)%nat -> set_nth n l v = Some (firstn n l ++ v :: skipn (S n) l).
-Proof.
-  revert n; induction l as [|x r IH]; intros n H; simpl in H; [lia|].
-  destruct n as [|n]; simpl; [reflexivity|].
-  rewrite IH by lia. reflexivity.
+  revert i; induction l as [|x r IH]; intros i H; simpl; [reflexivity|].
+  simpl in H. destruct (Z.eqb_spec i 0) as [->|Hne]; [lia|]. apply IH. lia.
 Qed.
 
 Lemma zset_ok {A} (l : list A) (i : Z) (v : A) :
   0 <= i < Z.of_nat (List.length l) ->
   zset l i v = Some (firstn (Z.to_nat i) l ++ v :: skipn (S (Z.to_nat i)) l).
 Proof.
-  intros H. unfold zset. destruct (Z.ltb_spec i 0); [lia|].
-  apply set_nth_ok. lia.
+  revert i; induction l as [|x r IH]; intros i H; simpl in H; [lia|].
+  simpl. destruct (Z.eqb_spec i 0) as [->|Hne]; [reflexivity|].
+  rewrite IH by lia. replace (Z.to_nat i) with (S (Z.to_nat (i - 1))) by lia. reflexivity.
+Qed.
+
+Lemma zset_none {A} (l : list A) (i : Z) (v : A) :
+  i < 0 \/ Z.of_nat (List.length l) <= i -> zset l i v = None.
+Proof.
+  revert i; induction l as [|x r IH]; intros i H; simpl; [reflexivity|].
+  simpl in H. destruct (Z.eqb_spec i 0) as [->|Hne]; [lia|]. rewrite IH by lia. reflexivity.
 Qed.
 
 Lemma zset_length {A} (l l' : list A) i v : zset l i v = Some l' -> List.length l' = List.length l.
 Proof.
-  unfold zset. destruct (i <? 0); [intros H; discriminate H|].
-  generalize (Z.to_nat i) as n. revert l'.
-  induction l as [|x r IH]; intros l' n; simpl; [intros H; discriminate H|].
-  destruct n; [intros [= <-]; reflexivity|].
-  destruct (set_nth n r v) eqn:E; [|intros H; discriminate H]. intros [= <-]. simpl. f_equal. eauto.
+  revert i l'; induction l as [|x r IH]; intros i l'; simpl; [intros H; discriminate H|].
+  destruct (i =? 0); [intros [= <-]; reflexivity|].
+  destruct (zset r (i - 1) v) eqn:E; [|intros H; discriminate H].
+  intros [= <-]. simpl. f_equal. eauto.
 Qed.
 
 (* writing at the end of a prefix that is being filled: l = done ++ x :: rest *)
-Lemma set_nth_app {A} (done rest : list A) (x v : A) :
-  set_nth (List.length done) (done ++ x :: rest) v = Some (done ++ v :: rest).
-Proof. induction done as [|y d IH]; simpl; [reflexivity|]. rewrite IH. reflexivity. Qed.
+Lemma zset_cons {A} (x : A) r i v : i <> 0 ->
+  zset (x :: r) i v = match zset r (i - 1) v with Some r' => Some (x :: r') | None => None end.
+Proof. intros H. cbn [zset]. destruct (Z.eqb_spec i 0); [contradiction|reflexivity]. Qed.
+Lemma zget_cons {A} (x : A) r i : i <> 0 -> zget (x :: r) i = zget r (i - 1).
+Proof. intros H. cbn [zget]. destruct (Z.eqb_spec i 0); [contradiction|reflexivity]. Qed.
 
 Lemma zset_app {A} (done rest : list A) (x v : A) (i : Z) :
   i = Z.of_nat (List.length done) ->
   zset (done ++ x :: rest) i v = Some (done ++ v :: rest).
 Proof.
-  intros ->. unfold zset. destruct (Z.ltb_spec (Z.of_nat (List.length done)) 0); [lia|].
-  rewrite Nat2Z.id. apply set_nth_app.
+  intros ->. induction done as [|y d IH]; [reflexivity|].
+  cbn [app List.length]. rewrite zset_cons by lia.
+  replace (Z.of_nat (S (List.length d)) - 1) with (Z.of_nat (List.length d)) by lia.
+  rewrite IH. reflexivity.
 Qed.
 
 Lemma zget_app {A} (done rest : list A) (x : A) (i : Z) :
   i = Z.of_nat (List.length done) -> zget (done ++ x :: rest) i = Some x.
 Proof.
-  intros ->. unfold zget. destruct (Z.ltb_spec (Z.of_nat (List.length done)) 0); [lia|].
-  rewrite Nat2Z.id. rewrite nth_error_app2 by lia. rewrite Nat.sub_diag. reflexivity.
+  intros ->. induction done as [|y d IH]; [reflexivity|].
+  cbn [app List.length]. rewrite zget_cons by lia.
+  replace (Z.of_nat (S (List.length d)) - 1) with (Z.of_nat (List.length d)) by lia.
+  exact IH.
 Qed.
+
+Lemma zset_app_off {A} (P Q : list A) (i j : Z) (v : A) :
+  i = Z.of_nat (List.length P) + j -> 0 <= j ->
+  zset (P ++ Q) i v = match zset Q j v with Some q => Some (P ++ q) | None => None end.
+Proof.
+  intros -> Hj. induction P as [|x P IH]; cbn [app List.length].
+  - replace (Z.of_nat 0 + j) with j by lia. destruct (zset Q j v); reflexivity.
+  - rewrite zset_cons by lia.
+    replace (Z.of_nat (S (List.length P)) + j - 1) with (Z.of_nat (List.length P) + j) by lia.
+    rewrite IH. destruct (zset Q j v); reflexivity.
+Qed.
+
+Lemma zget_app_off {A} (P Q : list A) (i j : Z) :
+  i = Z.of_nat (List.length P) + j -> 0 <= j -> zget (P ++ Q) i = zget Q j.
+Proof.
+  intros -> Hj. induction P as [|x P IH]; cbn [app List.length].
+  - f_equal; lia.
+  - rewrite zget_cons by lia.
+    replace (Z.of_nat (S (List.length P)) + j - 1) with (Z.of_nat (List.length P) + j) by lia.
+    exact IH.
+Qed.
+
+Lemma zget_app_l {A} (P Q : list A) (i : Z) :
+  0 <= i < Z.of_nat (List.length P) -> zget (P ++ Q) i = zget P i.
+Proof.
+  revert i; induction P as [|x P IH]; intros i H; cbn [app List.length] in *; [lia|].
+  cbn [zget]. destruct (Z.eqb_spec i 0); [reflexivity|]. apply IH. lia.
+Qed.
+
+Lemma zset_app_l {A} (P Q : list A) (i : Z) (v : A) :
+  0 <= i < Z.of_nat (List.length P) ->
+  zset (P ++ Q) i v = match zset P i v with Some p => Some (p ++ Q) | None => None end.
+Proof.
+  revert i; induction P as [|x P IH]; intros i H; cbn [app List.length] in *; [lia|].
+  cbn [zset]. destruct (Z.eqb_spec i 0); [reflexivity|].
+  rewrite IH by lia. destruct (zset P (i - 1) v); reflexivity.
+Qed.
+
+Lemma truth_b2z b : truth (b2z b) = b.
+Proof. destruct b; reflexivity. Qed.
+
+Lemma b2z_truth_b2z b : b2z (truth (b2z b)) = b2z b.
+Proof. destruct b; reflexivity. Qed.
 
 (* ---- the loop rule ---- *)
 
@@ -776,6 +871,44 @@ Proof.
 Qed.
 
 End LoopRule.
+
+(* ------------------------------------------------------------------ *)
+(* tactics for symbolic execution (see notes/MINIC.md, HOWTO)           *)
+
+(* decide the integer comparisons of the goal that follow from the context *)
+Ltac zb1 :=
+  match goal with
+  | |- context[Z.eqb ?a ?b] =>
+      first [ replace (Z.eqb a b) with true by (symmetry; apply Z.eqb_eq; lia)
+            | replace (Z.eqb a b) with false by (symmetry; apply Z.eqb_neq; lia) ]
+  | |- context[Z.ltb ?a ?b] =>
+      first [ replace (Z.ltb a b) with true by (symmetry; apply Z.ltb_lt; lia)
+            | replace (Z.ltb a b) with false by (symmetry; apply Z.ltb_ge; lia) ]
+  | |- context[Z.leb ?a ?b] =>
+      first [ replace (Z.leb a b) with true by (symmetry; apply Z.leb_le; lia)
+            | replace (Z.leb a b) with false by (symmetry; apply Z.leb_gt; lia) ]
+  end.
+Ltac zb := repeat zb1.
+
+(* run the interpreter as far as the symbolic data allows *)
+Ltac mc_step := cbn; rewrite ?truth_b2z, ?b2z_truth_b2z.
+Ltac mc := repeat (progress (mc_step; zb)).
+
+(* states as literal records: [set_i (set_i st "x" a) "y" b] ~> [{| s_i := [...]; ... |}] *)
+Ltac norm_state :=
+  cbv [set_i set_f set_ai set_af aupd s_i s_f s_ai s_af st_empty
+       String.eqb Ascii.eqb Bool.eqb].
+
+(* name the (first) loop of the goal and prove its result with [loop_rule]:
+   leaves  (1) the step obligation, (2) [Inv 0 st0], (3) the fuel bound,
+   (4) the original goal with [HL : exists r, loop ... = Ok r /\ Post r] *)
+Ltac loop_with Inv Post m :=
+  match goal with
+  | |- context[loop ?f ?c ?b ?s] =>
+      let HL := fresh "HL" in
+      assert (HL : exists r, loop f c b s = Ok r /\ Post r);
+      [ apply (loop_rule Inv Post m c b) with (k := O) | ]
+  end.
 
 (* ------------------------------------------------------------------ *)
 (* comparators of the tie with the compiled kernels (binary64)          *)
